@@ -91,6 +91,161 @@ Definition check_lines (s : bytes) (ls : list bytes) : bool :=
    token kinds: 0 blockquote, 1 list item, 2 bullet list, 3 ordered list *)
 Definition blocks_ok (ops : list (tok N)) : bool := bal_check N.eqb [] ops.
 
+(* ---------------- the inline main loop (inlineParser.render) ----------------
+   Covered constructs: text, backslash escapes, character references, code
+   spans, emphasis runs, soft and hard line breaks, ASCII input.  Brackets and
+   angle brackets (links, images, raw HTML, autolinks) are NOT covered: the model
+   treats those bytes as ordinary text, and the correspondence check uses texts
+   without them. *)
+Inductive piece :=
+| PText (b : bytes) | PCode (b : bytes) | PNewline | PHard
+| PDelim (typ : N) (n : nat) (o c : bool).
+
+Definition slice (s : bytes) (a b : nat) : bytes := firstn (b - a) (skipn a s).
+Definition ascii_space (c : N) : bool := (c =? 32) || ((9 <=? c) && (c <=? 13)).
+(* (is space, is punctuation) of the runes around a delimiter run; the ends of
+   the text count as a newline *)
+Definition cls_at (text : bytes) (i : option nat) : bool * bool :=
+  match i with
+  | None => (true, false)
+  | Some q => match nth_error text q with
+              | Some c => (ascii_space c, is_ascii_punct c)
+              | None => (true, false)
+              end
+  end.
+
+Fixpoint trim_right_sp (s : bytes) : bytes :=
+  match s with
+  | [] => []
+  | c :: r => match trim_right_sp r with
+              | [] => if c =? 32 then [] else [c]
+              | t => c :: t
+              end
+  end.
+Definition ends_2sp (s : bytes) : bool :=
+  match rev s with 32 :: 32 :: _ => true | _ => false end.
+
+(* parseText: the text from [begin] on, extended from [pos] over non-meta bytes *)
+Definition parse_text (text : bytes) (begin pos : nat) : list piece * nat :=
+  let pos' := (pos + span (fun c => negb (is_meta c)) (skipn pos text))%nat in
+  let txt := slice text begin pos' in
+  if nth_is pos' text 10 then
+    (PText (trim_right_sp txt) :: (if ends_2sp txt then [PHard] else []), pos')
+  else ([PText txt], pos').
+
+Definition inline_step (text : bytes) (pos : nat) : list piece * nat :=
+  match nth_error text pos with
+  | None => ([], S pos)
+  | Some b =>
+    if (b =? 42) || (b =? 95) then
+      let k := span (fun c => c =? b) (skipn pos text) in
+      let p' := (pos + k)%nat in
+      let '(sp, pp) := cls_at text (match pos with O => None | S q => Some q end) in
+      let '(sn, pn) := cls_at text (Some p') in
+      let '(o, c) := can_open_close (b =? 95) sp pp sn pn in
+      ([PDelim b k o c], Nat.max (S pos) p')
+    else if b =? 96 then
+      let k := span is_bt (skipn pos text) in
+      let p1 := (pos + k)%nat in
+      match findBacktickRun text k p1 with
+      | Some j => ([PCode (normalize_code_span (slice text p1 j))], Nat.max (S pos) (j + k)%nat)
+      | None => parse_text text pos (Nat.max (S pos) p1)
+      end
+    else if b =? 38 then
+      let l := char_ref_len (skipn pos text) in
+      if Nat.eqb l 0 then parse_text text pos (S pos)
+      else ([PText (unescape_entity (slice text pos (pos + l)))], (pos + l)%nat)
+    else if b =? 92 then
+      match nth_error text (S pos) with
+      | Some d =>
+        if d =? 10 then ([PHard], S pos)
+        else if is_ascii_punct d then parse_text text (S pos) (S (S pos))
+        else parse_text text pos (S pos)
+      | None => parse_text text pos (S pos)
+      end
+    else if b =? 10 then
+      ([PNewline], (S pos + span (fun c => N.eqb c 32) (skipn (S pos) text))%nat)
+    else parse_text text pos (S pos)
+  end.
+
+Fixpoint inline_loop (fuel : nat) (text : bytes) (pos : nat) (acc : list piece) : option (list piece) :=
+  match fuel with
+  | O => None
+  | S f =>
+    if Nat.leb (length text) pos then Some acc
+    else let '(ps, p') := inline_step text pos in inline_loop f text p' (acc ++ ps)
+  end.
+
+(* rendered inline operations *)
+Inductive iop :=
+| IOText (b : bytes) | IOCode (b : bytes) | IONewline | IOHard
+| IOEm (start strong : bool).
+
+Definition piece_entries (ps : list piece) : list entry :=
+  (fix go (i : nat) (l : list piece) : list entry :=
+     match l with
+     | [] => []
+     | PDelim t n o c :: r => EDelim (mkDelim i t n n o c) :: go (S i) r
+     | _ :: r => EItem (IText i 1) :: go (S i) r
+     end) 0%nat ps.
+
+(* buffer.ops: adjacent texts merge, empty texts vanish, newlines inside a text
+   (from character references) become newline operations *)
+Fixpoint split_nl (s cur : bytes) : list bytes :=
+  match s with
+  | [] => [rev cur]
+  | c :: r => if c =? 10 then rev cur :: split_nl r [] else split_nl r (c :: cur)
+  end.
+
+Definition push_text (ops : list iop) (b : bytes) : list iop :=   (* ops reversed *)
+  match b with
+  | [] => ops
+  | _ =>
+    match split_nl b [] with
+    | [] => ops
+    | l0 :: ls =>
+      let ops1 :=
+        match ops with
+        | IOText t :: o' => IOText (t ++ l0) :: o'
+        | _ => match l0 with [] => ops | _ => IOText l0 :: ops end
+        end in
+      fold_left (fun o l => match l with [] => IONewline :: o | _ => IOText l :: IONewline :: o end) ls ops1
+    end
+  end.
+
+Definition tok_ops (ps : list piece) (ops : list iop) (t : otok) : list iop :=
+  match t with
+  | OStart s => IOEm true s :: ops
+  | OEnd s => IOEm false s :: ops
+  | OText id len =>
+    match nth_error ps id with
+    | Some (PText b) => push_text ops b
+    | Some (PCode b) => IOCode b :: ops
+    | Some PNewline => IONewline :: ops
+    | Some PHard => IOHard :: ops
+    | Some (PDelim t _ _ _) => push_text ops (repeat t len)
+    | None => ops
+    end
+  end.
+
+Definition render_inline (text : bytes) : option (list iop) :=
+  match inline_loop (S (length text)) text 0 [] with
+  | None => None
+  | Some ps =>
+    match process_emphasis (piece_entries ps) with
+    | None => None
+    | Some l => Some (rev (fold_left (tok_ops ps) (flatten l) []))
+    end
+  end.
+
+Definition iop_eqb (a b : iop) : bool :=
+  match a, b with
+  | IOText x, IOText y | IOCode x, IOCode y => bytes_eqb x y
+  | IONewline, IONewline | IOHard, IOHard => true
+  | IOEm s t, IOEm s' t' => Bool.eqb s s' && Bool.eqb t t'
+  | _, _ => false
+  end.
+
 (* ---------------- cases ---------------- *)
 Inductive din := Din (typ : N) (n : nat) (op cl : bool).   (* typ 120 = plain text piece *)
 
@@ -114,7 +269,8 @@ Inductive case :=
 | KCharRef (s : bytes) (len : nat) (unesc : bytes)
 | KLines (s : bytes) (ls : list bytes)
 | KBlocks (ops : list (tok N))
-| KCandidate (got ref : bytes).   (* unconfirmed disagreement with the reference proxy: recorded, not judged *)
+| KCandidate (got ref : bytes)
+| KInline (text : bytes) (obs : list iop).   (* unconfirmed disagreement with the reference proxy: recorded, not judged *)
 
 Definition opt_nat_eqb (a b : option nat) : bool :=
   match a, b with Some x, Some y => Nat.eqb x y | None, None => true | _, _ => false end.
@@ -166,6 +322,8 @@ Definition judge1 (c : case) : N :=
   | KLines s ls => code (check_lines s ls) (list_eqb bytes_eqb (split_lines s) ls)
   | KBlocks ops => code (blocks_ok ops) true
   | KCandidate _ _ => 0
+  | KInline text obs =>
+    code true (match render_inline text with Some ops => list_eqb iop_eqb ops obs | None => false end)
   end.
 
 Definition judge := judge_with judge1.
